@@ -2,6 +2,8 @@ import CC.Thm.C15
 #print axioms CC.Thm.C15.get_set
 #print axioms CC.Thm.C15.set_isolated
 #print axioms CC.Thm.C15.bad_param
+#print axioms CC.Thm.C15.bad_param_small
+#print axioms CC.Thm.C15.param_high_bit_ignored
 #print axioms CC.Thm.C15.set_is_direct
 #print axioms CC.Thm.C15.stream64_eq_iff
 #print axioms CC.Thm.C15.stream32_eq_iff
